@@ -40,6 +40,58 @@ let op_cr a =
   end
 
 
+(* ---- concurrent results (coq/Ck/CkConc.v): the outcomes depend on the thread schedule, vmodel prints the inputs only ---- *)
+let int_list s = if s = "" then [] else List.map int_of_string (List.filter (fun x -> x <> "") (String.split_on_char ',' s))
+
+let op_ck_conc a =
+  let states = int_list (str a "states" "2,2") in
+  emit (Printf.sprintf "ckc n=%d park=%s reps=%d obs=? pto=?" (List.length states) (str a "park" "-") (num a "reps" 100))
+
+let conc_jobs a now =
+  let states = int_list (str a "states" "2,2") in
+  let ds = int_list (str a "d" "") in
+  List.mapi (fun j sx ->
+    let d = (try List.nth ds j with _ -> 0) in
+    (z_of_int now, { r_state = sstate_of_int sx; r_start = z_of_int (now + d); r_end = z_of_int (now + d) })) states
+
+(* one outcome "st.ty.at.lh/res:ncr:sc,..." -> Ok (fields, reports) | Error why *)
+let conc_parse_outcome tok =
+  match String.split_on_char '/' tok with
+  | [f; ths] ->
+    (match List.map int_of_string (String.split_on_char '.' f) with
+     | [a1; a2; a3; a4] ->
+       let bad = ref None in
+       let outs = List.map (fun t ->
+         match String.split_on_char ':' t with
+         | [res; ncr; sc] ->
+           (match res, ncr, sc with
+            | "0", "1", "-" -> CcAccepted EvNone
+            | "0", "1", "S" -> CcAccepted EvSoft
+            | "0", "1", "H" -> CcAccepted EvHard
+            | "3", "0", "-" -> CcRejected
+            | _ -> bad := Some t; CcRejected)
+         | _ -> bad := Some t; CcRejected) (String.split_on_char ',' ths) in
+       (match !bad with
+        | Some t -> Error ("events-or-result-code " ^ t)
+        | None -> Ok ((((z_of_int a1, z_of_int a2), z_of_int a3), z_of_int a4), outs))
+     | _ -> Error "fields"
+     | exception _ -> Error "fields")
+  | _ -> Error "shape"
+
+(* 0 = explained by a serial order; 1 = event kinds only (second load of the state type); 2 = accepted calls in some
+   order explain the fields but no serial order does (second critical section for last_check_result); 3 = neither *)
+let conc_judge cfg s0 js tok =
+  match conc_parse_outcome tok with
+  | Error why -> (3, why)
+  | Ok (fin, outs) ->
+    if List.length outs <> List.length js then (3, "thread-count") else
+    if cc_strict_ok cfg s0 js fin outs then (0, "") else
+    let relaxed = cc_relaxed_ok cfg s0 js fin outs in
+    let noev = cc_strict_noev_ok cfg s0 js fin outs in
+    if relaxed && noev && cc_cfg_now.cc_ev_reread then (1, "")
+    else if relaxed && (not noev) && cc_cfg_now.cc_cr_split then (2, "")
+    else (3, if relaxed then "shape-of-the-tree-excludes-it" else "lost-update-or-foreign-state")
+
 let oracle_c01_case script trace =
   (* script: op lines; trace: implementation observation lines *)
   let cfg = ref { c_kind = KHost; c_max = z_of_int 3; c_volatile = false } in
@@ -47,13 +99,38 @@ let oracle_c01_case script trace =
   let steps = ref [] in           (* accepted osteps, newest first *)
   let last_start = ref None in
   let last_state = ref "" in
+  let mst = ref pending in        (* model state, for the start state of ck_conc *)
   let err = ref None in
   let tr = ref trace in
   let fail m = if !err = None then err := Some m in
   List.iteri (fun li line ->
     match parse_line line with
     | Some (("ck_new" | "ckf_new"), a) -> cfg := { c_kind = (if str a "kind" "host" = "svc" then KService else KHost);
-                                     c_max = z_of_int (num a "max" 3); c_volatile = (num a "vol" 0 <> 0) }
+                                     c_max = z_of_int (num a "max" 3); c_volatile = (num a "vol" 0 <> 0) };
+                                     mst := pending
+    | Some ("ck_conc", a) ->
+      (match !tr with
+       | [] -> fail (Printf.sprintf "step=%d missing-observation" li)
+       | l :: rest ->
+         tr := rest;
+         if is_bad_line l then fail (Printf.sprintf "step=%d crash %s" li l) else begin
+           let t = toks_of l in
+           if List.hd t <> "ckc" then fail (Printf.sprintf "step=%d crash unexpected-line %s" li l) else
+           match tok_val t "obs" with
+           | None | Some "" -> fail (Printf.sprintf "step=%d crash no-outcomes %s" li l)
+           | Some obs ->
+             let js = conc_jobs a !now in
+             let worst = ref (0, "", "") in
+             List.iter (fun tok ->
+               let (k, why) = conc_judge !cfg !mst js tok in
+               let (wk, _, _) = !worst in
+               if k > wk then worst := (k, tok, why)) (String.split_on_char '|' obs);
+             (match !worst with
+              | (1, tok, _) -> fail (Printf.sprintf "kind=conc-event-reread outcome=%s (fields.../result:new-result-events:state-change-events per thread) step=%d" tok li)
+              | (2, tok, _) -> fail (Printf.sprintf "kind=conc-cr-gap outcome=%s (fields.../result:new-result-events:state-change-events per thread) step=%d" tok li)
+              | (3, tok, why) -> fail (Printf.sprintf "kind=conc-not-serialisable outcome=%s why=%s violates-C01 step=%d" tok why li)
+              | _ -> ())
+         end)
     | Some ("now", a) -> now := tnum (List.hd a.pos)
     | Some (("ack" | "unack" | "ackread" | "cmtimer" | "dt_add" | "dt_remove" | "dt_starttimer" | "dt_cleanup"
             | "fire" | "parent" | "pause" | "nextcheck") as opn, _) ->
@@ -79,6 +156,11 @@ let oracle_c01_case script trace =
          (* combined fixture: a rejected (stale) result raises no new-result event *)
          let res = if opn = "crf" then (if List.mem "ncr" t then 0 else 3) else geti "res" in
          let start = if has a "start" then tnum (str a "start" "0") else !now in
+         if opn = "cr" then begin
+           let r = { r_state = sstate_of_int (num a "state" 0); r_start = z_of_int start;
+                     r_end = z_of_int (if has a "end" then tnum (str a "end" "0") else !now) } in
+           mst := fst (step !cfg (z_of_int !now) !mst r)
+         end;
          let stale = (match !last_start with Some ls -> ls <= !now && start < ls | None -> false) in
          let stline = String.concat " " (List.filter (fun x -> List.exists (fun p -> String.length x > 3 && String.sub x 0 3 = p) ["st="; "ty="; "at="; "lh="]) t) in
          if res = 3 then begin
@@ -104,4 +186,5 @@ let oracle_c01_case script trace =
 let () =
   register_op "ck_new" op_ck_new;
   register_op "cr" op_cr;
+  register_op "ck_conc" op_ck_conc;
   register_oracle "C01" oracle_c01_case
